@@ -86,6 +86,14 @@ impl World {
             code_metadata: VMCodeMetadata::empty(), contract_owner: None, developer_rewards: BigUint::from(0u32) });
         self.track(a);
     }
+    /// an account at a CONTRACT address that holds funds and sends transactions (a multisig, a wrapper): payable code, never called by the harness
+    pub fn add_contract_user(&mut self, a: &VMAddress, egld: u64) {
+        self.r.blockchain_mock.state.accounts.insert(a.clone(), AccountData {
+            address: a.clone(), nonce: 0, egld_balance: BigUint::from(egld), esdt: Default::default(),
+            username: vec![], storage: Default::default(), contract_path: Some(b"gas".to_vec()),
+            code_metadata: VMCodeMetadata::all(), contract_owner: None, developer_rewards: BigUint::from(0u32) });
+        self.track(a);
+    }
     pub fn add_esdt(&mut self, a: &VMAddress, token: &[u8], amount: u64) {
         self.r.blockchain_mock.state.accounts.get_mut(a).unwrap().esdt
             .increase_balance(token.to_vec(), 0, &BigUint::from(amount), Default::default());
